@@ -329,7 +329,18 @@ func zeroOfSort(sortName string) string {
 }
 
 // fresh symbolic value of a Go type, with its type invariants assumed.
+var freshDepth int
+
 func (e *Engine) fresh(s *State, t types.Type, hint string) Value {
+	freshDepth++
+	defer func() { freshDepth-- }()
+	if freshDepth > 6 {
+		// recursive or very deep types: stop unfolding
+		return OpaqueV{"deeply nested value of type " + t.String()}
+	}
+	if isTextBuffer(t) {
+		return Sc{s.freshConst(hint+"_text", SStr), SStr}
+	}
 	if ss, ok := scalarSort(t); ok {
 		c := s.freshConst(hint, ss)
 		if ss == SInt {
